@@ -119,6 +119,14 @@ type SFor struct {
 	Init, Test, Upd Expr // each may be nil
 	Body            []Stmt
 }
+type Clause struct {
+	Test Expr // nil = default
+	Body []Stmt
+}
+type SSwitch struct {
+	E     Expr
+	Cases []Clause
+}
 type SBreak struct{ L int }
 type SContinue struct{ L int }
 type SReturn struct{ E Expr }
@@ -198,6 +206,29 @@ func (s SFor) JS(ind string) string {
 func (s SFor) Coq() string {
 	return fmt.Sprintf("(SFor %s %s %s %s)", optCoq(s.Init), optCoq(s.Test), optCoq(s.Upd), listCoq(s.Body))
 }
+func (s SSwitch) JS(ind string) string {
+	var b strings.Builder
+	b.WriteString(ind + "switch (" + s.E.JS() + ") {\n")
+	for _, c := range s.Cases {
+		if c.Test == nil {
+			b.WriteString(ind + "default:\n")
+		} else {
+			b.WriteString(ind + "case " + c.Test.JS() + ":\n")
+		}
+		for _, x := range c.Body {
+			b.WriteString(x.JS(ind + "  "))
+		}
+	}
+	b.WriteString(ind + "}\n")
+	return b.String()
+}
+func (s SSwitch) Coq() string {
+	parts := make([]string, len(s.Cases))
+	for i, c := range s.Cases {
+		parts[i] = "(" + optCoq(c.Test) + ", " + listCoq(c.Body) + ")"
+	}
+	return fmt.Sprintf("(SSwitch %s [%s])", s.E.Coq(), strings.Join(parts, "; "))
+}
 func (s SBreak) JS(ind string) string    { return ind + "break" + labJS(s.L) + ";\n" }
 func (s SBreak) Coq() string             { return fmt.Sprintf("(SBreak %d%%nat)", s.L) }
 func (s SContinue) JS(ind string) string { return ind + "continue" + labJS(s.L) + ";\n" }
@@ -245,6 +276,7 @@ type Gen struct {
 	nextLab  int
 	Stats    map[string]int
 	NonWfPct int // percentage of labelled statements whose body otto mishandles
+	swDepth  int // enclosing switch statements (an unlabelled break is legal there)
 }
 
 func NewGen(r *rand.Rand, budget int, inFunc bool) *Gen {
@@ -335,13 +367,17 @@ func (g *Gen) stmt(labs []lab, loopDepth int, inLoop bool) []Stmt {
 			}
 		}
 		return []Stmt{s}
-	case k < 63:
+	case k < 60:
 		return g.while(labs, loopDepth, 0)
+	case k < 63:
+		return []Stmt{g.switchStmt(labs, loopDepth, inLoop)}
 	case k < 73:
 		// break / continue
 		var cands []Stmt
 		if inLoop {
 			cands = append(cands, SBreak{L: 0}, SContinue{L: 0})
+		} else if g.swDepth > 0 {
+			cands = append(cands, SBreak{L: 0})
 		}
 		for _, l := range labs {
 			cands = append(cands, SBreak{L: l.id})
@@ -459,6 +495,51 @@ func (g *Gen) while(labs []lab, loopDepth int, label int) []Stmt {
 	return append(pre, w)
 }
 
+// switchStmt: 1-4 clauses, at most one default at any position, bodies that may be empty (fall through),
+// case expressions with visible side effects now and then
+func (g *Gen) switchStmt(labs []lab, loopDepth int, inLoop bool) Stmt {
+	g.Stats["switch"]++
+	r := g.R
+	var disc Expr
+	switch r.Intn(3) {
+	case 0:
+		disc = Lit{Kind: 1, N: r.Intn(3)}
+	case 1:
+		disc = Var{X: g.avar()}
+	default:
+		disc = g.expr(1)
+	}
+	n := 1 + r.Intn(4)
+	def := -1
+	if r.Intn(3) != 0 {
+		def = r.Intn(n)
+	}
+	sw := SSwitch{E: disc}
+	g.swDepth++
+	for i := 0; i < n; i++ {
+		c := Clause{}
+		if i != def {
+			switch r.Intn(4) {
+			case 0:
+				c.Test = Log{E: Lit{Kind: 1, N: r.Intn(3)}}
+			case 1:
+				c.Test = g.expr(1)
+			default:
+				c.Test = Lit{Kind: 1, N: r.Intn(3)}
+			}
+		}
+		if r.Intn(4) != 0 {
+			c.Body = g.list(1+r.Intn(2), labs, loopDepth, inLoop)
+			if r.Intn(2) == 0 {
+				c.Body = append(c.Body, SBreak{L: 0})
+			}
+		}
+		sw.Cases = append(sw.Cases, c)
+	}
+	g.swDepth--
+	return sw
+}
+
 func (g *Gen) labelled(labs []lab, loopDepth int, inLoop bool) []Stmt {
 	g.Stats["labelled"]++
 	id := g.nextLab
@@ -482,8 +563,10 @@ func (g *Gen) labelled(labs []lab, loopDepth int, inLoop bool) []Stmt {
 		default:
 			body = STry{B: []Stmt{SThrow{E: Lit{Kind: 1, N: 1}}}, HasC: true, C: []Stmt{SBreak{L: id}}}
 		}
-	case k < 60:
+	case k < 52:
 		body = SBlock{L: g.list(1+r.Intn(3), inner, loopDepth, inLoop)}
+	case k < 60:
+		body = g.switchStmt(inner, loopDepth, inLoop)
 	case k < 75:
 		// nested label
 		id2 := g.nextLab
